@@ -10,7 +10,7 @@ from ..loader import AnalysisError, Tree
 from ..model import Model
 from ..normal import ext_name, strip_cast
 from ..report import Result
-from ..terms import NONE, T, const, contains, mk, show
+from ..terms import NONE, T, const, contains, mk, show, uncopy
 from .common import step_types, txt
 
 EXPLANATION = (
@@ -63,7 +63,7 @@ def autoreset_obligations(res: Result, rule: str, vfg: VFG, tree: Tree, clsname:
     facts: Dict[str, object] = {}
     # ---------------- step
     S, A = mk("param", step.qual, step.params[1]), mk("param", step.qual, step.params[2])
-    r = vfg.apply_func(step, self_t, ci, [S, A], {}, None, None)
+    r = uncopy(vfg.apply_func(step, self_t, ci, [S, A], {}, None, None))
     s_in, a_in = (mk("elem", S), mk("elem", A)) if batched else (S, A)
     stepcall = mk("call", mk("attr", E, "step"), (s_in, a_in), ())
     s1, t1 = mk("proj", stepcall, 0), mk("proj", stepcall, 1)
@@ -120,14 +120,15 @@ def autoreset_obligations(res: Result, rule: str, vfg: VFG, tree: Tree, clsname:
         res.add(rule + ".R2", site2, fn2, "reset key is a projection of split(terminal state.key)", good, why)
         facts["split_index"] = idx
         exp_obs = mk("attr", mk("proj", R, 1), "observation")
-        okt = At.kind == "update" and At.args[1] == "observation" and At.args[0] is keepts and At.args[2] is exp_obs
+        okt = At.kind == "update" and At.args[1] == "observation" and strip_cast(At.args[0]) is keepts and At.args[2] is exp_obs
         why = f"{txt(At, 6, 300)}"
         if not okt:
             # diagnose the common wrong shapes
             fields = []
             x = At
-            while x.kind == "update":
-                fields.append(x.args[1])
+            while x.kind in ("update", "copy"):
+                if x.kind == "update":
+                    fields.append(x.args[1])
                 x = x.args[0]
             if x is t1 and "observation" in fields:
                 why += " -- maybe_add is not applied (or applied after the replacement)"
@@ -139,7 +140,7 @@ def autoreset_obligations(res: Result, rule: str, vfg: VFG, tree: Tree, clsname:
         facts["replaced"] = ("observation",) if okt else None
     # ---------------- reset
     Kp = mk("param", reset.qual, reset.params[1])
-    rr = vfg.apply_func(reset, self_t, ci, [Kp], {}, None, None)
+    rr = uncopy(vfg.apply_func(reset, self_t, ci, [Kp], {}, None, None))
     k_in = mk("elem", Kp) if batched else Kp
     rc = mk("call", mk("attr", E, "reset"), (k_in,), ())
     e_s, e_t = mk("proj", rc, 0), mk("proj", rc, 1)
@@ -162,7 +163,7 @@ def autoreset_obligations(res: Result, rule: str, vfg: VFG, tree: Tree, clsname:
             raise AnalysisError(f"{clsname}.__init__: expected one assignment of _maybe_add_obs_to_extras for next_obs_in_extras={flag}, got {len(stores)}")
         f = stores[0].value
         ts = mk("param", "probe", "timestep")
-        out = v2.apply(f, [ts], {}, None, None)
+        out = uncopy(v2.apply(f, [ts], {}, None, None))
         if flag:
             ok = f.kind == "fn" and f.meta.get("func") is addf
             why = "add_obs_to_extras" if ok else f"wired to {txt(f)}"
@@ -180,10 +181,10 @@ def add_obs_obligation(res: Result, rule: str, vfg: VFG, tree: Tree):
     if addf is None or key.kind != "const":
         raise AnalysisError("anchor add_obs_to_extras / NEXT_OBS_KEY_IN_EXTRAS not found")
     ts = mk("param", addf.qual, addf.params[0])
-    out = vfg.apply_func(addf, None, None, [ts], {}, None, None)
+    out = uncopy(vfg.apply_func(addf, None, None, [ts], {}, None, None))
     ok = False
     why = txt(out, 6, 300)
-    if out.kind == "update" and out.args[0] is ts and out.args[1] == "extras":
+    if out.kind == "update" and strip_cast(out.args[0]) is ts and out.args[1] == "extras":
         ex = out.args[2]
         if ext_name(ex) == "builtins.setitem":
             obj, k, v = ex.args[1]
